@@ -22,6 +22,8 @@
 #include <cstdlib>
 #include <string>
 
+#include <unistd.h>
+
 #include "qtlogger/logmessage.h"
 #include "qtlogger/filters/categoryfilter.h"
 #include "qtlogger/filters/duplicatefilter.h"
@@ -48,9 +50,12 @@ const char *g_counterNames[8] = { "iterations", "skipped_wide_width", "json_outp
                                   "oracle_compared", "oracle_skipped", "nondefault_verdicts", "bounded_compared" };
 void dumpCounters()
 {
-    const char *p = getenv("VERIF_FUZZ_STATS");
-    if (!p || !*p)
+    const char *p0 = getenv("VERIF_FUZZ_STATS");
+    if (!p0 || !*p0 || g_counters[0] == 0)
         return;
+    // one file per process: libFuzzer's -fork mode runs the target in child processes
+    const std::string path = std::string(p0) + "." + std::to_string(long(getpid()));
+    const char *p = path.c_str();
     if (FILE *f = fopen(p, "w")) {
         fprintf(f, "{");
         for (int i = 0; i < 8; i++)
@@ -299,11 +304,18 @@ extern "C" int LLVMFuzzerTestOneInput(const uint8_t *data, size_t size)
                                  ".critical", ".fatal", "+", "?", "(", ")", "[", "]", "\\", "^", "$", "|", "{", "}", "=true", "=false",
                                  "ab.x", "*.x", "ab.*", "\r", "A", "1", "-", "_", "TRUE", "debug", "\xc3\xa9", "\xd0\x96" };
     const int ntok = int(sizeof(tok) / sizeof(tok[0]));
+    std::string catSoFar; // rules may quote the probed category (whole / first half / second half): overlapping rules become frequent
     auto build = [&](size_t maxTokens, bool forCategory) {
         std::string s;
         size_t n = fdp.ConsumeIntegralInRange<size_t>(0, maxTokens);
         for (size_t i = 0; i < n && fdp.remaining_bytes() > 0; i++) {
-            const char *t = tok[fdp.ConsumeIntegralInRange<int>(0, ntok - 1)];
+            const int k = fdp.ConsumeIntegralInRange<int>(0, ntok - 1 + (forCategory ? 0 : 6));
+            if (k >= ntok) {
+                const size_t half = catSoFar.size() / 2;
+                s += (k - ntok) % 3 == 0 ? catSoFar : (k - ntok) % 3 == 1 ? catSoFar.substr(0, half) : catSoFar.substr(half);
+                continue;
+            }
+            const char *t = tok[k];
             if (forCategory && (t[0] == '\n' || t[0] == '\r' || t[0] == ';' ))
                 continue; // probed categories contain no line breaks (DESIGN C15 domain decision); ';' is fine but rules cannot express it
             s += t;
@@ -311,6 +323,7 @@ extern "C" int LLVMFuzzerTestOneInput(const uint8_t *data, size_t size)
         return s;
     };
     std::string cat = build(12, true);
+    catSoFar = cat;
     std::string rules = build(60, false);
     QString qrules = QString::fromUtf8(rules.data(), int(rules.size()));
     QString qcat = QString::fromUtf8(cat.data(), int(cat.size()));
